@@ -10,6 +10,7 @@ import (
 	"runtime/debug"
 	"sort"
 	"strconv"
+	"strings"
 	"time"
 
 	cache "github.com/fufuok/cache"
@@ -175,12 +176,17 @@ func strCodecAlias(alias map[int]int) codec[string] {
 		}}
 }
 
+var longKey = strings.Repeat("long-key/", 33) + "2"
+
 func strCodec() codec[string] {
 	// key 1 is the EMPTY string (hashed by a special case in the library)
 	return codec[string]{
 		to: func(i int) string {
-			if i == 1 {
+			switch i {
+			case 1:
 				return ""
+			case 2:
+				return longKey // key 2 is 300 bytes long (hash functions treat long inputs on another path)
 			}
 			return "k" + strconv.Itoa(i)
 		},
@@ -188,11 +194,14 @@ func strCodec() codec[string] {
 			if s == "" {
 				return 1
 			}
+			if s == longKey {
+				return 2
+			}
 			if len(s) < 2 || s[0] != 'k' {
 				return -1
 			}
 			n, err := strconv.Atoi(s[1:])
-			if err != nil || n == 1 {
+			if err != nil || n == 1 || n == 2 {
 				return -1
 			}
 			return n
